@@ -12,7 +12,7 @@ ends). The runtime part of the property (scheduler, memory exhaustion, loops ins
 gzip/influx/pprof, goroutine leaks of the real runtime) is not in the model; it is looked at by the
 child-process exploration of the check, which is support, not an obligation. -/
 namespace Qryn.C05
-open Qryn.Ingest
+open Qryn.IngestFaults
 
 /-- **no_crash.** For every route and every document shape — missing ids, wrong kinds, empty arrays, absent
     optional messages, wrong id lengths, truncated input, unparsable or zero query parameters — the fixed
